@@ -115,6 +115,11 @@ def p_plus(K, prop, fid, cls, tag=""):
                 site, chain = res[c]
                 return Ob(key, prop, "P+", K.config, fid, PROVED, "class zero_divisor reachable (primitive digit division)", loc,
                           dict(witness=[F.inst_label(i) for i in chain], site=site.loc, instances_explored=len(order)))
+    unknown = sorted(c for c in res if c.startswith("other(") or c == "dynamic")
+    if unknown:
+        return Ob(key, prop, "P+", K.config, fid, UNDECIDED,
+                  "class %s not found, but panic sites with wording unknown to the class table are reachable (%s)" % (cls, ", ".join(unknown)[:200]),
+                  loc, dict(reachable=sorted(res)))
     return Ob(key, prop, "P+", K.config, fid, VIOLATED,
               "required panic class %s is not reachable from this function in %s (explored %d instances): it can never raise it"
               % (cls, K.config, len(order)), loc, dict(reachable=sorted(c for c in res if panics.is_contract_class(c))))
@@ -199,7 +204,13 @@ def _match(exp, out, env, W):
         return None
     if kind == "panic":
         if out[0] == "panic":
-            return out[1] == exp[1] or (exp[1] == "*")
+            if out[1] == exp[1] or exp[1] == "*":
+                return True
+            # a panic whose wording the class table does not know is still a panic: the properties fix
+            # panic / no panic, not the message text
+            if out[1].startswith("other(") or out[1] == "dynamic" or out[1].startswith("diverges:"):
+                return None
+            return False
         return False
     if out[0] == "panic":
         return False
